@@ -135,6 +135,8 @@ class ListModel:
             self.length = t[2][0]
             self.default = {'empty': None, 'zeros': C(0.0), 'ones': C(1.0)}[show(t[1]).split('.')[-1]]
             return
+        if t[0] == 'bin' and t[1] == 'Add' and t[2][0] in ('list', 'comp', 'cat') and t[3][0] in ('list', 'comp', 'cat'):
+            return self.build(('cat', (t[2][1] if t[2][0] == 'cat' else (t[2],)) + (t[3][1] if t[3][0] == 'cat' else (t[3],))), n)
         if t[0] == 'cat':
             # [first] ++ [f(x) for x in range(1, n)]
             pos = 0
